@@ -63,6 +63,9 @@ CORPUS = [
     ('gfa2', _adds(['S\tA\t10\t*', 'S\tB\t10\t*', 'E\te1\tA+\tB+\t7\t10$\t0\t3\t*', 'G\tg1\tA+\tB-\t5\t*', 'U\tu1\tA B', 'O\to1\tA+ B+'])
      + [('rename', 'e1', '*'), ('rename', 'g1', '*'), ('rename', 'u1', '*'), ('rename', 'o1', '*'),
         ('add', 'G\te1\tB+\tA-\t1\t*'), ('add', 'U\tg1\tA'), ('rename', 'A', 'u1')]),
+    # a link with an unspecified overlap under paths that quote an overlap, along and against the link; the link goes
+    ('gfa1', _adds(['S\ta\t*', 'S\tb\t*', 'L\ta\t+\tb\t+\t*', 'P\tfwd\ta+,b+\t4M', 'P\trev\tb-,a-\t4M', 'P\tany\tb-,a-\t*'])
+     + [('rmline', 'L\ta\t+\tb\t+\t*'), ('add', 'L\tb\t-\ta\t-\t4M')]),
     # lines without identifier that say the same twice: both are records, both go with their segment
     ('gfa2', _adds(['S\tA\t10\t*', 'S\tB\t10\t*', 'E\t*\tA+\tB+\t7\t10$\t0\t3\t*', 'E\t*\tA+\tB+\t7\t10$\t0\t3\t*', 'G\t*\tA+\tB-\t5\t*', 'G\t*\tA+\tB-\t5\t*',
                     'F\tA\tr+\t0\t3\t0\t3\t*', 'F\tA\tr+\t0\t3\t0\t3\t*', 'E\t*\tB+\tB-\t7\t10$\t7\t10$\t*'])
